@@ -78,6 +78,8 @@ def npMax : List Q → Q
   | x :: xs => xs.foldl (fun a b => if a < b then b else a) x
 /-- `a / s` / `a /= s` with a scalar -/
 def npDivScalar (xs : List Q) (c : Q) : List Q := xs.map (fun x => x / c)
+/-- `a * c` with a scalar -/
+def npMulScalar (xs : List Q) (c : Q) : List Q := xs.map (fun x => x * c)
 /-- `a / b`, element by element (`a /= b`) -/
 def npDiv (a b : List Q) : List Q := List.zipWith (fun x y => x / y) a b
 /-- `np.ones_like(a)` -/
